@@ -1017,10 +1017,16 @@ def exact_gradient_lines(case, w, mll, tag, cond, known_sites, op="grad"):
                     tot[j] += g
                     mag[j] += abs(float(g)) + n * cond * (max(JAn) + max(Jmn))   # crude scale of the summed terms
         worst = 0.0
+        scale_max = max(mag[j] / N + abs(float(Goth[k])) for j, k in enumerate(comps))
         for j, k in enumerate(comps):
             exact = float(tot[j]) / N + float(Goth[k])
             got = float(G[k])
             scale = mag[j] / N + abs(float(Goth[k]))
+            if cfg.get("family") == "sgpr":
+                # the Jacobian entries of an SGPR kernel carry an ABSOLUTE error of order cond(K_zz)·eps·|K| (they are
+                # differences of large terms through K_zz^{-1/2}), so a component with a tiny Jacobian (inducing points) is
+                # judged on the scale of the largest component of the case
+                scale = max(scale, scale_max)
             # SGPR: kernel values AND their Jacobians go through K_zz^{-1/2} (conditioning of K_zz, not of A): the float64
             # Jacobian shipped to the driver and the implementation's backward both carry that noise (observed 3e-8·scale)
             base = 1e-6 if cfg.get("family") == "sgpr" else 1e-9
